@@ -13,7 +13,10 @@ def check(ctx):
                        "ascii_only and compared line by line (markers exactly, payload by identity of the element), each line "
                        "single and newline-terminated, ascii pure, str == join(format()); reading back: an independent "
                        "recursive-descent reader of the marker lines must recover the tree's Shape, and two trees with different "
-                       "Shape must never share one rendering (unique decodability, checked over all generated trees)")
+                       "Shape must never share one rendering (unique decodability, checked over all generated trees); the same is done for "
+                       "trees CONVERTED FROM REAL EXTRACTED STACKS (generator chains, @contextmanager inner stacks, ExitStacks with "
+                       "children, exiting managers, hidden frames and contexts, recorded errors also in inner stacks, a leaf, a "
+                       "blocked thread, Trio task trees with stub and populated child stacks) on every interpreter")
     ctx.assume("payload text (names, source, reprs) is opaque and free of marker characters; error text has no leading blanks")
     ts, cases, outs = m10.spec_and_real(ctx, 700, 8000)
     if ts is None:
@@ -31,3 +34,14 @@ def check(ctx):
     for c in collisions[:5]:
         ctx.violation(c, None)
     ctx.sample({"tree": ts[3], "lines": cases[0]["lines"][:8]})
+    # the same specification on trees converted from REAL extracted stacks
+    rbad, rn, rcases = m10.real_corpus(ctx, "format")
+    ctx.replays += rn
+    ctx.note("real_stack_renderings", rn)
+    for b in rbad[:8]:
+        ctx.violation(b[:900], None)
+    if rcases:
+        n_read2, collisions2 = c18_shape.roundtrip_and_injectivity(rcases)
+        ctx.note("read_back_real_cases", n_read2)
+        for c in collisions2[:5]:
+            ctx.violation("real stacks: " + c, None)
